@@ -7,6 +7,8 @@ quiescent point (after every message / delivery), plus icontract postconditions 
 """
 from __future__ import annotations
 
+import re
+
 import copy
 import random
 
@@ -136,6 +138,14 @@ class World:
                 raise
             except Exception as exc:
                 errors.append(type(exc).__name__)
+                # a pair whose virtual qubit is still in use WAITS (it stays pending until the application frees the qubit): the
+                # executor may not try to map it and fail with "already allocated" - the response would be lost.  (Only ids
+                # 0..len-1: a negative id, which indexes the unit module from its end, is not looked up as "in use" by any tree.)
+                m_busy = re.search(r"QubitAddress at address (\d+) for application (\d+) is already allocated", str(exc))
+                if m_busy and 0 <= int(m_busy.group(1)) < len(ex._qubit_unit_modules.get(int(m_busy.group(2))) or []) and not n.get("busy_failed"):
+                    n["busy_failed"] = (f"a pair for virtual qubit {m_busy.group(1)} of application {m_busy.group(2)}, which is still in use: "
+                                  f"the executor tried to map it at once ({type(exc).__name__}: {str(exc).splitlines()[0][:120]}) "
+                                  f"instead of keeping the response pending")
                 mapped = {p for um in ex._qubit_unit_modules.values() for p in um if p is not None}
                 for r in before:
                     pos = getattr(r, "logical_qubit_id", None)
@@ -449,6 +459,8 @@ def run_history(ctx, ops):
             return f"operation {i} {op}: {e}", None
         if _state["viol"]:
             return f"operation {i} {op}: {_state['viol']}", None
+        if n.get("busy_failed"):
+            return f"operation {i} {op}: {n['busy_failed']}", None
         if n.get("stuck"):
             what, errors = n["stuck"]
             why = (f"every poll of the pending responses raises {sorted(set(errors))} for a response of another request first" if errors
